@@ -244,6 +244,75 @@ def ob_swap(k0: int, k1: int, k2: int, a: int, calls: int) -> bool:
         return H.verdict(not probs)
 
 
+def ob_two_stores(k0: int, k1: int, a: int, new_session: bool, first_b: bool) -> bool:
+    """
+    pre: 0 <= k0 <= 2 and 0 <= k1 <= 2
+    pre: 0 <= a <= 1
+    post: _
+    """
+    H.enter()
+    # the same function cached in two cache directories: results of version k0 sit in store B; the source is edited
+    # to k1 (optionally in a fresh process); the new definition is called through store A and then through store B
+    v0, v1, aa = H.select(k0, 0, 2), H.select(k1, 0, 2), H.select(a, 0, 1)
+    ns_, fb = bool(new_session), bool(first_b)
+    with H.native():
+        from joblib import Memory
+        flavour = H.P("flavour")
+        fs = fakefs.FS()
+        clock = memlib.Clock()
+        probs = []
+        with memlib.env(fs, clock):
+            memlib.fresh_process()
+            f0 = memlib.define(fs, "c12mod", _src(flavour, v0))["f"]
+            mem_a, mem_b = Memory(memlib.CACHE + "_A", verbose=0), Memory(memlib.CACHE + "_B", verbose=0)
+            if fb:
+                mem_a.cache(f0)(aa)
+            mem_b.cache(f0)(aa)
+            if ns_:
+                memlib.fresh_process()
+                mem_a, mem_b = Memory(memlib.CACHE + "_A", verbose=0), Memory(memlib.CACHE + "_B", verbose=0)
+            f1 = memlib.define(fs, "c12mod", _src(flavour, v1))["f"]
+            for nm, mem in (("A", mem_a), ("B", mem_b), ("A", mem_a)):
+                got, want = mem.cache(f1)(aa), f1(aa)
+                if got != want:
+                    probs.append("store %s returned %r for the new definition (its code computes %r)" % (nm, got, want))
+        for m in probs:
+            H.note("v%d -> v%d, new process=%r: %s" % (v0, v1, ns_, m))
+        return H.verdict(not probs)
+
+
+NOSRC = ["def f(a):\n    return ('n', a + %d)\n" % k for k in range(3)] + ["def f(a):\n    return ('n', a - 1)\n"]
+
+
+def ob_nosrc(k0: int, k1: int, k2: int, a: int) -> bool:
+    """
+    pre: 0 <= k0 <= 3 and 0 <= k1 <= 3 and 0 <= k2 <= 3
+    pre: 0 <= a <= 1
+    post: _
+    """
+    H.enter()
+    # functions whose source cannot be read back (exec / interactive definition): versions differ in a constant or
+    # an operator only
+    ks, aa = [H.select(k0, 0, 3), H.select(k1, 0, 3), H.select(k2, 0, 3)], H.select(a, 0, 1)
+    with H.native():
+        fs = fakefs.FS()
+        clock = memlib.Clock()
+        probs = []
+        with memlib.env(fs, clock):
+            memlib.fresh_process()
+            mem = memlib.new_memory()
+            for k in ks:
+                nsd = {"__name__": "c12nosrc"}
+                exec(compile(NOSRC[k], "<no source %d>" % 0, "exec"), nsd)
+                f = nsd["f"]
+                got, want = mem.cache(f)(aa), f(aa)
+                if got != want:
+                    probs.append("definition %r returned %r, its code computes %r" % (NOSRC[k], got, want))
+        for m in probs:
+            H.note("%r: %s" % (ks, m))
+        return H.verdict(not probs)
+
+
 def ob_persist(k: int, a: int, sessions: int) -> bool:
     """
     pre: 0 <= k <= 2 and 0 <= a <= 1
@@ -336,10 +405,16 @@ def obligations(tier, seed):
             obs.append({"name": "two_defs/%s" % flavour, "fn": "ob_two_defs", "mode": "S",
                         "kf": ["KF-C12-stale-inmemory-shortcut"], "params": {"flavour": flavour}, "timeout": 600,
                         "bounds": "define va, define vb (own source units), three calls of either live definition, args 0..1"})
+        if flavour in ("module", "prefix"):
+            obs.append({"name": "two_stores/%s" % flavour, "fn": "ob_two_stores", "mode": "S", "params": {"flavour": flavour},
+                        "timeout": 300, "bounds": "two cache directories in one process: version k0 cached in B (and A), edit to "
+                                                  "k1 (same or fresh process), call through A, B, A"})
         if flavour == "prefix":
             continue
         obs.append({"name": "persist/%s" % flavour, "fn": "ob_persist", "mode": "S", "params": {"flavour": flavour},
                     "timeout": 300, "bounds": "version 0..2, argument 0..1, 1..3 fresh processes"})
+    obs.append({"name": "nosrc", "fn": "ob_nosrc", "mode": "S", "timeout": 300,
+                "bounds": "three successive definitions without retrievable source (differing in a constant / operator), arg 0..1"})
     obs.append({"name": "lambda", "fn": "ob_lambda", "mode": "S", "timeout": 120,
                 "bounds": "two lambdas on two lines of one module, 4 interleaved call orders"})
     return obs
